@@ -110,11 +110,90 @@ static void runTree(const std::vector<Case>& cs, const Vec3& station, const Vec3
     }
 }
 
+// ---- Euler -> quaternion conversion starting from an Euler-mode state (any angles, not only converted ones)
+static void canonQuat(double* q) {      // q and -q are the same rotation: make the largest component positive
+    int m = 0; for (int i = 1; i < 4; ++i) if (std::abs(q[i]) > std::abs(q[m])) m = i;
+    if (q[m] < 0) for (int i = 0; i < 4; ++i) q[i] = -q[i];
+}
+static void runE2Q(int type, const Vec3& ang, const Vec3& p, const Vec3& station) {
+    Case c; c.type = type; c.euler = true;
+    for (int i = 0; i < 3; ++i) { c.q[i] = ang[i]; c.u[i] = 0.3 + 0.1 * i; }
+    const bool trans = (type == FREE || type == FREELINE);
+    if (trans) for (int i = 0; i < 3; ++i) { c.q[3 + i] = p[i]; c.u[(type == FREE ? 3 : 2) + i] = 0.2 - 0.1 * i; }
+    if (type == ELLIPSOID) { c.par[0] = 0.7; c.par[1] = 1.1; c.par[2] = 1.6; }
+    std::vector<Case> cs(1, c);
+    std::unique_ptr<Sys> S = build(cs, true);
+    setQU(*S, cs);
+    S->system.realize(S->state, Stage::Velocity);
+    State sq; S->matter.convertToQuaternions(S->state, sq);
+    S->system.realize(sq, Stage::Velocity);
+    const MobilizedBody& m = S->mobods[0];
+    vh::I("e2q").s(typeName[type]).v(ang, 3).v(p, 3).emit();
+    double q[4]; for (int i = 0; i < 4; ++i) q[i] = m.getOneQ(sq, i);
+    canonQuat(q);
+    vh::Line l = vh::O("quat"); for (int i = 0; i < 4; ++i) l.d(q[i]);
+    if (trans) for (int i = 0; i < 3; ++i) l.d(m.getOneQ(sq, 4 + i));
+    l.emit();
+    vh::D(std::string("e2q.") + typeName[type]);
+    const std::string key = std::string("C06.e2q.") + typeName[type];
+    vh::P("e2q_pose", key + ".e2q_pose", xfDiff(m.getBodyTransform(sq), m.getBodyTransform(S->state)), 1e-12);
+    vh::P("e2q_vel", key + ".e2q_vel", svDiff(m.getBodyVelocity(sq), m.getBodyVelocity(S->state)), 1e-12);
+    double n2 = 0; for (int i = 0; i < 4; ++i) n2 += q[i] * q[i];
+    vh::P("e2q_unit", key + ".e2q_unit", std::abs(n2 - 1), 1e-13);
+    (void)station;
+}
+
+// ---- FunctionBased mirror of one built-in mobilizer: its X_FM / V_FM are predicted by the model (Spec.fbX0)
+static void runFB(const Case& c) {
+    std::vector<Case> cs(1, c);
+    BuildOpts o; o.functionBased.push_back(true);
+    std::unique_ptr<Sys> S = buildEx(cs, false, o);
+    setQU(*S, cs);
+    S->system.realize(S->state, Stage::Velocity);
+    putCase("fb", c);
+    outX("X_FM", S->mobods[0].getMobilizerTransform(S->state));
+    outSV("V_FM", S->mobods[0].getMobilizerVelocity(S->state));
+    vh::D(std::string("fb.") + typeName[c.type] + (c.rev ? ".rev" : ".fwd"));
+}
+
+// ---- re-rooted twin (as TestReverseMobilizers): Ground-Free->P-T(reversed)->B  versus  Ground-Free->B'-T(forward)->P'
+// with the mobilizer frames swapped; same q,u for T; the Free joint of the twin is fitted to B's pose and velocity.
+static void runRR(const Case& c0, const Case& freeCase, const Vec3& g) {
+    Case c = c0; c.rev = true; c.parent = 1;
+    std::vector<Case> A; A.push_back(freeCase); A.push_back(c);
+    Case t = c; t.rev = false; t.X_PF = c.X_BM; t.X_BM = c.X_PF; t.parent = 1;
+    std::vector<Case> B; B.push_back(freeCase); B.push_back(t);
+    BuildOpts o; o.gravity = true; o.g = g;
+    std::unique_ptr<Sys> SA = buildEx(A, c.euler, o), SB = buildEx(B, c.euler, o);
+    setQU(*SA, A); setQU(*SB, B);
+    SA->system.realize(SA->state, Stage::Acceleration);
+    // twin: root body B' placed where B is
+    SB->mobods[0].setQToFitTransform(SB->state, SA->mobods[1].getBodyTransform(SA->state));
+    SB->mobods[0].setUToFitVelocity(SB->state, SA->mobods[1].getBodyVelocity(SA->state));
+    SB->system.realize(SB->state, Stage::Acceleration);
+    putCase("rr", c);
+    vh::D(std::string("rr.") + typeName[c.type] + (c.euler ? ".euler" : ".quat"));
+    const std::string key = std::string("C06.rr.") + typeName[c.type];
+    const MobilizedBody &PA = SA->mobods[0], &BA = SA->mobods[1], &BB = SB->mobods[0], &PB = SB->mobods[1];
+    vh::P("rr_pose", key + ".rr_pose", std::max(xfDiff(PB.getBodyTransform(SB->state), PA.getBodyTransform(SA->state)),
+                                               xfDiff(BB.getBodyTransform(SB->state), BA.getBodyTransform(SA->state))), 1e-9);
+    vh::P("rr_vel", key + ".rr_vel", std::max(svDiff(PB.getBodyVelocity(SB->state), PA.getBodyVelocity(SA->state)),
+                                             svDiff(BB.getBodyVelocity(SB->state), BA.getBodyVelocity(SA->state))), 1e-9);
+    vh::P("rr_acc", key + ".rr_acc", std::max(svDiff(PB.getBodyAcceleration(SB->state), PA.getBodyAcceleration(SA->state)),
+                                             svDiff(BB.getBodyAcceleration(SB->state), BA.getBodyAcceleration(SA->state))), 1e-7);
+}
+
 static void replay() {
     static char buf[1 << 18];
     while (std::fgets(buf, sizeof buf, stdin)) {
         std::istringstream is(buf); std::string k, fn; is >> k >> fn;
-        if (k != "I" || fn != "tree") continue;
+        if (k != "I") continue;
+        if (fn == "fb") { Case c; if (getCase(is, c)) runFB(c); continue; }
+        if (fn == "rr") { Case c; if (getCase(is, c)) { vh::Rng g(4242); Case f = randomCase(g, FREE, 0, 0, false, c.euler);
+                          runRR(c, f, Vec3(1.5, -9.0, 2.5)); } continue; }
+        if (fn == "e2q") { std::string ty, t; is >> ty; double w[6]; bool ok = true; for (int i = 0; i < 6; ++i) { if (is >> t) w[i] = vh::unhex(t); else ok = false; }
+                           if (ok && typeOf(ty) >= 0) runE2Q(typeOf(ty), Vec3(w[0], w[1], w[2]), Vec3(w[3], w[4], w[5]), Vec3(0)); continue; }
+        if (fn != "tree") continue;
         int n; is >> n; std::vector<Case> cs; bool ok = true;
         for (int i = 0; i < n && ok; ++i) { Case c; std::vector<double> v; size_t kk; is >> c.parent; ok = getBody(is, c, v, kk); cs.push_back(c); }
         std::vector<double> w; std::string t; for (int i = 0; i < 18 && ok; ++i) { if (is >> t) w.push_back(vh::unhex(t)); else ok = false; }
@@ -139,6 +218,22 @@ int main(int argc, char** argv) {
         }
         runTree(cs, Vec3(g.signedMag(0.1, 2), g.signedMag(0.1, 2), g.signedMag(0.1, 2)),
                 Vec3(g.signedMag(1, 10), g.signedMag(1, 10), g.signedMag(1, 10)), randomFrame(g, 2));
+    }
+    // guaranteed shares of the single-mobilizer streams (about n/3 records each)
+    const int e2qTypes[5] = {BALL, FREE, ELLIPSOID, LINEORIENTATION, FREELINE};
+    for (long k = 0; k < std::max<long>(5, args.n / 3); ++k)
+        runE2Q(e2qTypes[k % 5], Vec3(anyAngle(g), safeAngle(g), anyAngle(g)), Vec3(g.signedMag(0.1, 2), g.signedMag(0.1, 2), g.signedMag(0.1, 2)), Vec3(0));
+    const int fbTypes[8] = {PIN, SLIDER, CYLINDER, PLANAR, UNIVERSAL, GIMBAL, BUSHING, TRANSLATION};
+    for (long k = 0; k < std::max<long>(16, args.n / 3); ++k)
+        runFB(randomCase(g, fbTypes[k % 8], g.below(3), g.below(3), (k / 8) % 2 == 1, false));
+    for (long k = 0; k < std::max<long>(2 * (NTYPES - 1), args.n / 3); ++k) {
+        int t = k % NTYPES; if (t == WELD) continue;
+        const bool euler = (k / NTYPES) % 2 == 1;
+        Case c = randomCase(g, t, g.below(3), g.below(3), true, euler);
+        if (usesQuat(t) && !euler) { double nn = 0; for (int j = 0; j < 4; ++j) nn += c.q[j] * c.q[j]; nn = std::sqrt(nn); for (int j = 0; j < 4; ++j) c.q[j] /= nn; }
+        vh::Rng gf(4242); Case f = randomCase(gf, FREE, 0, 0, false, euler);
+        if (!euler) { double nn = 0; for (int j = 0; j < 4; ++j) nn += f.q[j] * f.q[j]; nn = std::sqrt(nn); for (int j = 0; j < 4; ++j) f.q[j] /= nn; }
+        runRR(c, f, Vec3(1.5, -9.0, 2.5));
     }
     return 0;
 }
